@@ -111,32 +111,35 @@ Qed.
 Section C.
 Variable dec : N -> bytes -> N -> option bytes.
 
-Lemma eval_block_rows : forall q w w' dts d m b bi x x',
+Lemma eval_block_st_rows : forall sts q w w' dts d m b bi,
   (contains_ts dts (bi_ts bi) = true -> out_of w (bi_ts bi) = out_of w' (bi_ts bi)) ->
-  eval_block dec q w dts d m b bi = Ok x -> eval_block dec q w' dts d m b bi = Ok x' ->
-  decision_rows x = decision_rows x'.
+  snd (eval_block_st dec sts q w dts d m b bi) = snd (eval_block_st dec sts q w' dts d m b bi) /\
+  forall x x', fst (eval_block_st dec sts q w dts d m b bi) = Ok x -> fst (eval_block_st dec sts q w' dts d m b bi) = Ok x' ->
+    decision_rows x = decision_rows x'.
 Proof.
-  intros q w w' dts d m b bi x x' A H H'. unfold eval_block in H, H'. fold (out_of w (bi_ts bi)) in H.
-  fold (out_of w' (bi_ts bi)) in H'.
+  intros sts q w w' dts d m b bi A. unfold eval_block_st. fold (out_of w (bi_ts bi)). fold (out_of w' (bi_ts bi)).
   destruct (contains_ts dts (bi_ts bi)) eqn:C.
-  - rewrite <- (A eq_refl) in H'. rewrite H in H'. inversion H'; reflexivity.
-  - cbn [negb] in H, H'.
-    destruct (out_of w (bi_ts bi)); destruct (out_of w' (bi_ts bi)); inversion H; inversion H'; reflexivity.
+  - rewrite <- (A eq_refl). split; [reflexivity|]. intros x x' H H'. rewrite H in H'. inversion H'; reflexivity.
+  - cbn [negb]. destruct (out_of w (bi_ts bi)); destruct (out_of w' (bi_ts bi)); cbn [fst snd];
+      (split; [reflexivity|]; intros x x' H H'; inversion H; inversion H'; reflexivity).
 Qed.
 
-Lemma eval_blocks_rows : forall q w w' dts d m bis b xs xs',
+Lemma eval_blocks_st_rows : forall q w w' dts d m bis b sts xs xs',
   (forall bi, In bi bis -> contains_ts dts (bi_ts bi) = true -> out_of w (bi_ts bi) = out_of w' (bi_ts bi)) ->
-  eval_blocks dec q w dts d m b bis = Ok xs -> eval_blocks dec q w' dts d m b bis = Ok xs' ->
+  eval_blocks_st dec sts q w dts d m b bis = Ok xs -> eval_blocks_st dec sts q w' dts d m b bis = Ok xs' ->
   flat_map decision_rows xs = flat_map decision_rows xs'.
 Proof.
-  intros q w w' dts d m bis. induction bis as [|bi r IH]; intros b xs xs' A H H'; cbn in H, H'.
+  intros q w w' dts d m bis. induction bis as [|bi r IH]; intros b sts xs xs' A H H'; cbn in H, H'.
   - inversion H; inversion H'; reflexivity.
-  - destruct (eval_block dec q w dts d m b bi) as [x| |] eqn:E; cbn in H; try discriminate.
-    destruct (eval_blocks dec q w dts d m (S b) r) as [ys| |] eqn:E2; cbn in H; try discriminate.
-    destruct (eval_block dec q w' dts d m b bi) as [x'| |] eqn:E'; cbn in H'; try discriminate.
-    destruct (eval_blocks dec q w' dts d m (S b) r) as [ys'| |] eqn:E2'; cbn in H'; try discriminate.
+  - destruct (eval_block_st_rows sts q w w' dts d m b bi) as [S R]; [intros; apply A; [left; reflexivity | assumption]|].
+    destruct (eval_block_st dec sts q w dts d m b bi) as [x sts1].
+    destruct (eval_block_st dec sts q w' dts d m b bi) as [x' sts1']. cbn [fst snd] in S, R. subst sts1'.
+    destruct x as [x| |]; cbn in H; try discriminate.
+    destruct (eval_blocks_st dec sts1 q w dts d m (S b) r) as [ys| |] eqn:E2; cbn in H; try discriminate.
+    destruct x' as [x'| |]; cbn in H'; try discriminate.
+    destruct (eval_blocks_st dec sts1 q w' dts d m (S b) r) as [ys'| |] eqn:E2'; cbn in H'; try discriminate.
     inversion H; inversion H'; subst. cbn. f_equal.
-    + eapply eval_block_rows; [|eassumption|eassumption]. intros; apply A; [left; reflexivity | assumption].
+    + apply R; reflexivity.
     + eapply IH; [|eassumption|eassumption]. intros; apply A; [right; assumption | assumption].
 Qed.
 
@@ -145,9 +148,9 @@ Lemma eval_open_rows : forall q w w' dts o dr dr',
   eval_open dec q w dts o = Ok dr -> eval_open dec q w' dts o = Ok dr' -> dr_rows dr = dr_rows dr'.
 Proof.
   intros q w w' dts o dr dr' A H H'. unfold eval_open in H, H'. destruct o as [[d m]| |]; try discriminate.
-  - destruct (eval_blocks dec q w dts d m 0 (m_blocks m)) as [xs| |] eqn:E; cbn in H; try discriminate.
-    destruct (eval_blocks dec q w' dts d m 0 (m_blocks m)) as [xs'| |] eqn:E'; cbn in H'; try discriminate.
-    inversion H; inversion H'; subst. cbn. eapply eval_blocks_rows; [|eassumption|eassumption]. intros; apply A; assumption.
+  - destruct (eval_blocks_st dec init_states q w dts d m 0 (m_blocks m)) as [xs| |] eqn:E; cbn in H; try discriminate.
+    destruct (eval_blocks_st dec init_states q w' dts d m 0 (m_blocks m)) as [xs'| |] eqn:E'; cbn in H'; try discriminate.
+    inversion H; inversion H'; subst. cbn. eapply eval_blocks_st_rows; [|eassumption|eassumption]. intros; apply A; assumption.
   - inversion H; inversion H'; reflexivity.
 Qed.
 
@@ -205,7 +208,7 @@ Qed.
    statistics of the query are the sums over the work items *)
 Definition accounted (q : query) (fs : fsys) (w : Z * Z) (it : Z * bytes) (dr : dayres) : Prop :=
   match open_day fs (fst it) (snd it) with
-  | Ok (d, m) => exists xs, eval_blocks dec q w (dir_ts (fst it)) d m 0 (m_blocks m) = Ok xs /\
+  | Ok (d, m) => exists xs, eval_blocks_st dec init_states q w (dir_ts (fst it)) d m 0 (m_blocks m) = Ok xs /\
                             length xs = length (m_blocks m) /\
                             dr_rows dr = flat_map decision_rows xs /\
                             dr_corrupted dr = count is_skipped xs /\ dr_processed dr = count is_processed xs /\
@@ -214,12 +217,12 @@ Definition accounted (q : query) (fs : fsys) (w : Z * Z) (it : Z * bytes) (dr : 
   | Panic => False
   end.
 
-Lemma eval_blocks_length : forall q w dts d m bis b xs, eval_blocks dec q w dts d m b bis = Ok xs -> length xs = length bis.
+Lemma eval_blocks_st_length : forall q w dts d m bis b sts xs, eval_blocks_st dec sts q w dts d m b bis = Ok xs -> length xs = length bis.
 Proof.
-  intros q w dts d m bis. induction bis as [|bi r IH]; intros b xs H; cbn in H.
+  intros q w dts d m bis. induction bis as [|bi r IH]; intros b sts xs H; cbn in H.
   - inversion H; reflexivity.
-  - destruct (eval_block dec q w dts d m b bi); cbn in H; try discriminate.
-    destruct (eval_blocks dec q w dts d m (S b) r) eqn:E; cbn in H; try discriminate.
+  - destruct (eval_block_st dec sts q w dts d m b bi) as [x sts1]. destruct x; cbn in H; try discriminate.
+    destruct (eval_blocks_st dec sts1 q w dts d m (S b) r) eqn:E; cbn in H; try discriminate.
     inversion H; subst. cbn. f_equal. eapply IH; eassumption.
 Qed.
 
@@ -233,8 +236,8 @@ Proof.
   exists items, w. repeat split; try assumption.
   eapply Forall2_imp; [|eassumption]. intros it dr E. unfold accounted. unfold eval_item, eval_open in E.
   destruct (open_day fs (fst it) (snd it)) as [[d m]| |]; try discriminate.
-  - destruct (eval_blocks dec q w (dir_ts (fst it)) d m 0 (m_blocks m)) as [xs| |] eqn:E2; cbn in E; try discriminate.
-    inversion E; subst. exists xs. cbn. repeat split; try reflexivity. eapply eval_blocks_length; eassumption.
+  - destruct (eval_blocks_st dec init_states q w (dir_ts (fst it)) d m 0 (m_blocks m)) as [xs| |] eqn:E2; cbn in E; try discriminate.
+    inversion E; subst. exists xs. cbn. repeat split; try reflexivity. eapply eval_blocks_st_length; eassumption.
   - inversion E; subst. cbn. repeat split; reflexivity.
 Qed.
 
